@@ -1,6 +1,7 @@
 // C16: concurrent lookups are race-free (ThreadSanitizer) and deterministic (per-thread digests
 // equal the digests of a sequential execution of the same per-thread operation lists).
 #include <atomic>
+#include <cfenv>
 #include <cstdint>
 #include <cstring>
 #include <limits>
@@ -42,13 +43,13 @@ struct Op {
     float x[3];
 };
 
-template <typename ORDER, int INTERP, bool AFFINE, std::size_t N>
+template <typename ORDER, int INTERP, bool AFFINE, std::size_t N, std::size_t EXT = 0>
 struct Config {
     static_assert(!(AFFINE && INTERP == I_NONE), "affine sits above an interpolator here");
     using B = typename stack_of<ORDER, INTERP, AFFINE, N>::type;
     using F = covfie::field<B>;
     using V = typename F::view_t;
-    static constexpr std::size_t E = N == 3 ? 16 : 64;  // extent per axis
+    static constexpr std::size_t E = EXT ? EXT : (N == 3 ? 16 : 64);  // extent per axis
     static constexpr std::size_t READ_MAX = E - 6;     // readers stay below this on axis 0; writers own [E-4, E)
 
     static F make(std::size_t len)
@@ -157,6 +158,9 @@ struct Config {
                 go.fetch_add(1, std::memory_order_relaxed);
                 while (go.load(std::memory_order_relaxed) < T + writers) {
                 }
+                // every second reader arrives with all floating-point STATUS flags raised (what an unrelated 0/0 or an
+                // overflow earlier in that thread leaves behind): lookups must not depend on the thread's history
+                if (t & 1) std::feraiseexcept(FE_ALL_EXCEPT);
                 bool own = view_mode == 1 || (view_mode == 2 && (t & 1));
                 V mine(f);  // a view per thread (made concurrently from the same field: only reads the field)
                 const V & v = own ? mine : shared;
@@ -490,6 +494,7 @@ static void early_pool(const std::string & oname, unsigned T, uint64_t seed)
         th.emplace_back([&, t] {
             const V * v;
             while (!(v = published.load(std::memory_order_acquire))) std::this_thread::yield();
+            if (t & 1) std::feraiseexcept(FE_ALL_EXCEPT);
             run_ops(*v, t, got[t]);
         });
     // only now: field, fill (ordinary values in components 0-1, float subnormals in component 2), view, sequential reference
@@ -874,6 +879,13 @@ int main(int argc, char ** argv)
     all_stacks<cb::strided<cv::size3, arr3>, 3>("strided", seed, R);
 #endif
 #if defined(SH_MORTON)
+    // 16-bit coordinates on axes long enough to need more than 16/N of their bits (64^3, 512x512 would be too large for 2-D
+    // at 12 bytes a cell: 3-D only): writers own a slab no reader's cell may alias
+    for (unsigned rep = 0; rep < (R > 4 ? 4 : R); ++rep) {
+        Config<cb::morton<cv::vector_d<unsigned short, 3>, arr3, true>, I_NONE, false, 3, 64>::run("morton<uint16,use_bmi2=true>", 6, (int)(rep % 3), 2, rep, seed);
+        Config<cb::morton<cv::vector_d<unsigned short, 3>, arr3, false>, I_NONE, false, 3, 64>::run("morton<uint16,use_bmi2=false>", 6, (int)((rep + 1) % 3), 2, rep, seed);
+        Config<cb::morton<cv::vector_d<unsigned short, 3>, arr3, false>, I_NN, false, 3, 64>::run("morton<uint16,use_bmi2=false>", 4, (int)((rep + 2) % 3), 2, rep, seed);
+    }
     for (unsigned rep = 0; rep < R; ++rep) two_fields<cb::morton<cv::size4, arr3, true>, I_LINEAR, 4>("morton<size4,true>", 8, rep, seed);
     all_stacks<cb::morton<cv::size3, arr3, true>, 3>("morton<use_bmi2=true>", seed, R);
     all_stacks<cb::morton<cv::size3, arr3, false>, 3>("morton<use_bmi2=false>", seed, R);
